@@ -954,17 +954,38 @@ func (cm *circuitMap) OpenCircuits(keystones ...Keystone) error {
 	// circuits.
 	cm.mtx.RLock()
 	openedCircuits := make([]*PaymentCircuit, 0, len(keystones))
+	batchInKeys := make(map[CircuitKey]struct{}, len(keystones))
+	batchOutKeys := make(map[CircuitKey]struct{}, len(keystones))
 	for _, ks := range keystones {
-		if _, ok := cm.opened[ks.OutKey]; ok {
+		// The outgoing key must be free, both in the set of opened
+		// circuits and among the keystones earlier in this batch, as
+		// the opened index is only updated after the batch is written.
+		_, dupOut := batchOutKeys[ks.OutKey]
+		if _, ok := cm.opened[ks.OutKey]; ok || dupOut {
 			cm.mtx.RUnlock()
 			return ErrDuplicateKeystone
 		}
+		batchOutKeys[ks.OutKey] = struct{}{}
 
 		circuit, ok := cm.pending[ks.InKey]
 		if !ok {
 			cm.mtx.RUnlock()
 			return ErrUnknownCircuit
 		}
+
+		// A circuit binds its incoming htlc to at most one outgoing
+		// htlc. Refuse to open a circuit that was already assigned a
+		// different keystone, either previously or earlier in this
+		// batch, otherwise the first keystone would be orphaned in
+		// memory and on disk.
+		_, dupIn := batchInKeys[ks.InKey]
+		hasOtherKeystone := circuit.HasKeystone() &&
+			circuit.OutKey() != ks.OutKey
+		if dupIn || hasOtherKeystone {
+			cm.mtx.RUnlock()
+			return ErrDuplicateKeystone
+		}
+		batchInKeys[ks.InKey] = struct{}{}
 
 		openedCircuits = append(openedCircuits, circuit)
 	}
